@@ -11,7 +11,30 @@ ENV = dict(os.environ, CARGO_NET_OFFLINE="true")
 RAC = os.path.join(ROOT, "rac")
 
 
+CARGO_TOML = """[package]
+name = "rac"
+version = "0.1.0"
+edition = "2021"
+
+[dependencies]
+join_impl = { path = "%s/join_impl" }
+syn = { version = "1.0", features = ["full", "extra-traits", "parsing", "printing"] }
+quote = "1.0"
+proc-macro2 = "1.0"
+
+[workspace]
+
+[profile.dev]
+opt-level = 1
+debug = 0
+"""
+
+
 def build():
+    want = CARGO_TOML % REPO
+    ct = os.path.join(RAC, "Cargo.toml")
+    if not os.path.exists(ct) or open(ct).read() != want:
+        open(ct, "w").write(want)
     lock = os.path.join(RAC, "Cargo.lock")
     if not os.path.exists(lock):
         import shutil
